@@ -6,13 +6,14 @@ import (
 	"fmt"
 	"go/ast"
 	"go/token"
+	"go/types"
 	"sort"
 	"strings"
 )
 
 func init() {
 	register("C27", propMeta{
-		Explanation: "Decides the discipline of the code that writes the passive side: (R1) passive-writer siblings: every function that writes under formatPassiveFolderEntity or through a tracker copy with the folder toggler inverted (registry Replicate, store-repository Replicate, the fileIO replay `replicate`) must be a no-op when replication is off OR has already failed (`!replicate || FailedToReplicate`), and must call handleFailedToReplicate on every failed passive write, so that one failure turns replication off instead of repeating against a broken drive; (R2) a passive failure never fails a commit: the replication closures of phase2Commit return nil on every path and run only after the commit point; (R3) ReinstateFailedDrives runs its steps in the order the catch-up depends on: start logging commit changes, copy stores and registry segments, fast-forward until no log is left, turn replication on, fast-forward again; (R4) the reinstating copy copies every registry segment file of every store unconditionally: in copyFilesByExtension each directory entry with the extension reaches copyFile or an error return - no entry is skipped on the strength of the target's current state (size, time), which says nothing about a partially replicated commit; and what it copies is read from the active side, i.e. before the folder toggler is flipped towards the passive side.",
+		Explanation:  "Decides the discipline of the code that writes the passive side: (R1) passive-writer siblings: every function that writes under formatPassiveFolderEntity or through a tracker copy with the folder toggler inverted (registry Replicate, store-repository Replicate, the fileIO replay `replicate`) must be a no-op when replication is off OR has already failed (`!replicate || FailedToReplicate`), and must call handleFailedToReplicate on every failed passive write, so that one failure turns replication off instead of repeating against a broken drive; (R2) a passive failure never fails a commit: the replication closures of phase2Commit return nil on every path and run only after the commit point; (R3) ReinstateFailedDrives runs its steps in the order the catch-up depends on: start logging commit changes, copy stores and registry segments, fast-forward until no log is left, turn replication on, fast-forward again; (R4) the reinstating copy copies every registry segment file of every store unconditionally: in copyFilesByExtension each directory entry with the extension reaches copyFile or an error return - no entry is skipped on the strength of the target's current state (size, time), which says nothing about a partially replicated commit; and what it copies is read from the active side, i.e. before the folder toggler is flipped towards the passive side.",
 		DoesNotCover: "Equality of the passive copy's contents after arbitrary histories and failover behaviour are runtime matters; what fast-forward applies is not decided.",
 	}, runC27)
 }
@@ -27,8 +28,8 @@ func runC27(c *Ctx) {
 		// discover the passive writers: functions of package fs that call formatPassiveFolderEntity and a write,
 		// or invert ActiveFolderToggler on a copy; the reinstate/copy functions are the catch-up path and are excluded by name
 		exempt := map[string]string{
-			"fs.StoreRepository.CopyToPassiveFolders": "reinstatement copy: runs while FailedToReplicate is set, by design",
-			"fs.replicationTracker.failover":          "switches the active folder, not a replica write",
+			"fs.StoreRepository.CopyToPassiveFolders":        "reinstatement copy: runs while FailedToReplicate is set, by design",
+			"fs.replicationTracker.failover":                 "switches the active folder, not a replica write",
 			"fs.replicationTracker.readStatusFromHomeFolder": "reads status files",
 		}
 		var writers []*Func
@@ -236,20 +237,36 @@ func runC27(c *Ctx) {
 		fc := w.Fn("fs.StoreRepository.CopyToPassiveFolders")
 		gc := w.G(fc)
 		c.Analysed(fc)
+		// the loop that copies: the range loop containing the copyFilesByExtension call
 		var sl *GNode
-		for _, n := range gc.Nodes {
-			if n.RangeHead != nil {
-				sl = n
-			}
+		for _, nc := range gc.callNodes("fs.copyFilesByExtension") {
+			sl = enclosingRangeHead(gc, nc.n)
 		}
 		okAll := sl != nil
 		if okAll {
-			// each store in the list reaches copyFilesByExtension unless it vanished (len(store)==0) or an error is returned
-			skip := gc.condNodes(func(e ast.Expr) bool {
+			// each store in the list reaches copyFilesByExtension unless it vanished (no info on the ACTIVE side:
+			// `len(store) == 0`, or a comma-ok miss in the map of infos read before the flip) or an error is returned
+			fi := fc.Pkg.TypesInfo
+			skipLen := gc.condNodes(func(e ast.Expr) bool {
 				be, isBE := e.(*ast.BinaryExpr)
 				return isBE && be.Op == token.EQL && w.mentionsCall(fc, be.X, "builtin.len")
 			})
-			r := gc.Reach(bodyStarts(sl), calls("fs.copyFilesByExtension"), edgeCut(skip, 1))
+			okVars := map[types.Object]bool{}
+			ast.Inspect(fc.Body, func(x ast.Node) bool {
+				if as, isAs := x.(*ast.AssignStmt); isAs && len(as.Lhs) == 2 && len(as.Rhs) == 1 {
+					if ix, isIx := ast.Unparen(as.Rhs[0]).(*ast.IndexExpr); isIx {
+						if _, isMap := fi.Types[ix.X].Type.Underlying().(*types.Map); isMap {
+							if id, isID := as.Lhs[1].(*ast.Ident); isID && fi.Defs[id] != nil {
+								okVars[fi.Defs[id]] = true
+							}
+						}
+					}
+				}
+				return true
+			})
+			skipOk := gc.condNodes(func(e ast.Expr) bool { id, isID := e.(*ast.Ident); return isID && okVars[fi.Uses[id]] })
+			cut := func(from *GNode, e Edge) bool { return edgeCut(skipLen, 1)(from, e) || edgeCut(skipOk, 2)(from, e) }
+			r := gc.Reach(bodyStarts(sl), calls("fs.copyFilesByExtension"), cut)
 			okAll = !r.Seen[sl.ID]
 		}
 		c.Check(okAll, r4, "CopyToPassiveFolders: the registry segments of every listed store are copied", fc.Decl.Pos(), "every iteration reaches copyFilesByExtension (vanished stores excepted)", "a store's registry segments can be left out of the reinstating copy", nil)
